@@ -86,3 +86,25 @@ package authz
 //@     after call authz.checkAuthClaims returning c, e : claimsOK = e == nil ; claims = c
 //@     before call authz.ServerInterface.ListObjects args _, _, r : assert claimsOK && r != nil && r.StoreId == a.config.StoreID && r.AuthorizationModelId == a.config.ModelID && r.User == "application:" + claims.ClientID && r.Relation == "can_call_get_store" && r.Type == "store"
 //@     after call authz.ServerInterface.ListObjects returning r, e : listCalled = true ; listErr = e
+
+// a write is confined to modules only if EVERY written and deleted tuple belongs to a module: the module extraction is
+// run once over all writes followed by all deletes (a tuple outside any module makes the whole request fall back to
+// store-level authorization)
+//@ func (*Authorizer).GetModulesForWriteRequest(a, ctx, req, typesys) (res, err)
+//@   property C26
+//@   option nosafety
+//@   option stable req
+//@   option defer_neutral
+//@   loop 0 invariant index == $idx + 1 && index <= len(req.GetWrites().GetTupleKeys()) && len(tuples) == len(req.GetWrites().GetTupleKeys()) + len(req.GetDeletes().GetTupleKeys()) && fresh(tuples)
+//@   loop 0 invariant forall j int :: 0 <= j && j <= $idx ==> typeIs(tuples[j], "*openfgav1.TupleKey") && as(tuples[j], "*openfgav1.TupleKey") == req.GetWrites().GetTupleKeys()[j]
+//@   loop 1 invariant index == len(req.GetWrites().GetTupleKeys()) + $idx + 1 && len(tuples) == len(req.GetWrites().GetTupleKeys()) + len(req.GetDeletes().GetTupleKeys()) && fresh(tuples)
+//@   loop 1 invariant forall j int :: 0 <= j && j < len(req.GetWrites().GetTupleKeys()) ==> typeIs(tuples[j], "*openfgav1.TupleKey") && as(tuples[j], "*openfgav1.TupleKey") == req.GetWrites().GetTupleKeys()[j]
+//@   loop 1 invariant forall j int :: 0 <= j && j <= $idx ==> typeIs(tuples[len(req.GetWrites().GetTupleKeys()) + j], "*openfgav1.TupleKeyWithoutCondition") && as(tuples[len(req.GetWrites().GetTupleKeys()) + j], "*openfgav1.TupleKeyWithoutCondition") == req.GetDeletes().GetTupleKeys()[j]
+//@   ensures @extractedOnce err == nil ==> extracted == 1 && extractErr == nil
+//@   monitor allTuples
+//@     ghost extracted int = 0
+//@     ghost extractErr error = nil
+//@     before call authz.extractModulesFromTuples args ts, tsys : assert tsys == typesys && len(ts) == len(req.GetWrites().GetTupleKeys()) + len(req.GetDeletes().GetTupleKeys())
+//@     before call authz.extractModulesFromTuples args ts, tsys : assert forall j int :: 0 <= j && j < len(req.GetWrites().GetTupleKeys()) ==> typeIs(ts[j], "*openfgav1.TupleKey") && as(ts[j], "*openfgav1.TupleKey") == req.GetWrites().GetTupleKeys()[j]
+//@     before call authz.extractModulesFromTuples args ts, tsys : assert forall j int :: 0 <= j && j < len(req.GetDeletes().GetTupleKeys()) ==> as(ts[len(req.GetWrites().GetTupleKeys()) + j], "*openfgav1.TupleKeyWithoutCondition") == req.GetDeletes().GetTupleKeys()[j]
+//@     after call authz.extractModulesFromTuples returning m, e : extracted = extracted + 1 ; extractErr = e
